@@ -3,7 +3,7 @@
    [p1 o cur fuel S loc obj] evaluates obj, [S] are all documents, [loc] is where obj sits in document [cur]
    ([None] = detached: a copy of a referenced subtree). The full "as if inline" statement for hosts that overlap
    their targets is not claimed (partial; see DESIGN.md). *)
-From Coq Require Import String Ascii List ZArith.
+From Coq Require Import String Ascii List ZArith Bool.
 From Bkl Require Import Model.Value Model.Merge Model.Str Model.Eval Proofs.PlainProofs Proofs.RefProofs.
 Import ListNotations.
 Local Open Scope string_scope.
@@ -29,6 +29,34 @@ Theorem C10_replace_inline : forall o cur f S loc loc' m r t org, lookup "$merge
   p1 o cur (Datatypes.S f) S loc (VMap m) = p1 o cur f S loc' t /\ p1 o cur f S loc' t = Ok (dn t, S).
 Proof. exact p1_replace_inline. Qed.
 Print Assumptions C10_replace_inline.
+
+(* $merge in a map: when the referenced subtree merged with the host's own content is directive-free, the host
+   evaluates to exactly that merge - what writing the subtree inline under the host's content gives. The reference is
+   resolved in the document with the $merge key taken out of the host; a target that contains the host is excluded
+   here (it is the cycle of C08_self_containing). *)
+Theorem C10_merge_inline : forall o cur f S loc m r inn di kp next,
+  lookup "$merge" m = Some r ->
+  get o (write_doc S cur loc (VMap (remove "$merge" m))) cur r = Ok (inn, (di, kp)) ->
+  (match loc with Some p => Nat.eqb di cur && keys_prefix kp p | None => false end) = false ->
+  merge_map (remove "$merge" m) inn = Ok next -> plain next -> height next <= f ->
+  exists S', p1 o cur (Datatypes.S f) S loc (VMap m) = Ok (dn next, S').
+Proof. exact p1_merge_inline. Qed.
+Print Assumptions C10_merge_inline.
+
+Theorem C10_merge_inline_detached : forall o cur f S m r inn org next,
+  lookup "$merge" m = Some r -> get o S cur r = Ok (inn, org) ->
+  merge_map (remove "$merge" m) inn = Ok next -> plain next -> height next <= f ->
+  p1 o cur (Datatypes.S f) S None (VMap m) = Ok (dn next, S).
+Proof. exact p1_merge_inline_detached. Qed.
+Print Assumptions C10_merge_inline_detached.
+
+(* the statements are about something: {a: {x: 1}, b: {$merge: a, y: 2}} *)
+Example C10_merge_example :
+  let o := {| o_env := []; o_yaml := fun s => Ok (VStr s); o_enc := fun _ _ => Err EOracle; o_dec := fun _ _ => Err EOracle;
+              o_fmt := fun _ => false; o_sha := fun _ => Err EOracle; o_lower := fun _ => false |} in
+  eval_docs o [VMap [("a", VMap [("x", VInt 1)]); ("b", VMap [("$merge", VStr "a"); ("y", VInt 2)])]]
+  = Ok [VMap [("a", VMap [("x", VInt 1)]); ("b", VMap [("x", VInt 1); ("y", VInt 2)])]].
+Proof. vm_compute. reflexivity. Qed.
 
 (* the referenced subtree itself is left unchanged: evaluating a (copy of a) referenced subtree never writes to any document *)
 Theorem C10_target_intact : forall o cur fuel S obj r S', p1 o cur fuel S None obj = Ok (r, S') -> S' = S.
